@@ -337,7 +337,7 @@ PROPS = {
         "level_note": K3_NOTE,
         "units": [K("k3::S-OnError-keep"), K("k3::S-OnError-in-translate"), K("k3::S-OnError-static-body"),
                   K("k3::S-OnError-two-streams"), K("k3::S-OnError-omit-expr"), K("k3::S-OnError-interp-attribute"),
-                  K("k3::S-OnError-dict-attributes"), FRESH],
+                  K("k3::S-OnError-dict-attributes"), K("tal.py::ErrorInfo.__init__"), FRESH],
         "not_decided": [],
         "assumptions": K3_ASSUME,
     },
